@@ -7,12 +7,15 @@
    (2) on every well-formed, fault-free state the class is the one the os package reports for the same
        situation: invalid name -> ErrInvalid, existing -> ErrExist, missing -> ErrNotExist or (below a regular
        file) ErrNotDir, non-empty directory -> ErrNotEmpty, removing the root -> ErrInvalid;
-   (3) an invalid name in Rename gives a LinkError with both caller names (C04's gate).
+   (3) an invalid name in Rename gives a LinkError with both caller names (C04's gate);
+   (4) through a generic Sub view and through a mount FS, failures of Stat/Mkdir/Remove/Chmod/Chtimes name the
+       caller's path (view-relative; mount point + inner path).
    NOT proved: Rename's other failures, MkdirAll/RemoveAll (which may name an ancestor/descendant), and the
    composition layers (mount, Sub, os, cache, tar): there the check compares full error values of the model
    (kv, mount, Sub) and of the os package with the implementation's on every generated failure.
    Known findings (harness): two precedence/ancestor differences from os, see known_findings.json. *)
-From HP Require Import Base.Prelude Base.Path KV.Types KV.FS KV.Handle KV.Run KV.GateProofs KV.TreeProofs KV.SpecProofs.
+From HP Require Import Base.Prelude Base.Path KV.Types KV.FS KV.Handle KV.Run KV.GateProofs KV.TreeProofs KV.SpecProofs
+  Compose.Mount Compose.Sub Compose.ErrPaths.
 Open Scope N_scope.
 
 Theorem C05_stat_failure_names_the_callers_path : forall st p e, snd (kv_stat st p) = inr e -> names_path p e.
@@ -78,6 +81,25 @@ Theorem C05_stat_sentinels : forall st p, good st ->
                ((p = dot \/ has_dir (st_store st) (path_dir p)) -> c = ENOENT)).
 Proof. intros st p G. destruct (kv_stat_spec st p G) as (_ & A & _ & C). split; assumption. Qed.
 Print Assumptions C05_stat_sentinels.
+
+(* through a Sub view the error names the caller's (view-relative) path: the view strips exactly what it added *)
+Theorem C05_sub_view_failure_names_the_callers_path : forall base st o p e,
+  valid_path base = true -> valid_path p = true -> one_name_kv o = Some p ->
+  snd (sstep base st o) = VErr e -> names_path p e.
+Proof. exact sub_failure_names_the_callers_path. Qed.
+Print Assumptions C05_sub_view_failure_names_the_callers_path.
+
+Theorem C05_sub_view_strips_its_own_prefix : forall base name, valid_path base = true -> valid_path name = true ->
+  strip_path name (sub_route base name) (sub_route base name) = name.
+Proof. exact strip_path_sub. Qed.
+Print Assumptions C05_sub_view_strips_its_own_prefix.
+
+(* through a mount FS the error names mount point + inner path, i.e. again the caller's path *)
+Theorem C05_mount_failure_names_the_callers_path : forall m o p e,
+  valid_path p = true -> Forall (fun x => fst x <> [] /\ fst x <> dot) (m_table m) -> one_name_kv o = Some p ->
+  snd (mstep m o) = VErr e -> names_path p e.
+Proof. exact mount_failure_names_the_callers_path. Qed.
+Print Assumptions C05_mount_failure_names_the_callers_path.
 
 (* Rename: an invalid name gives a LinkError carrying both caller names *)
 Theorem C05_rename_invalid_name_is_a_link_error : forall st a b,
